@@ -201,7 +201,7 @@ PROPS = {
                 "value); short values (<=5) with every position x capacity combination; message dumped after the call",
     },
     "C04": {
-        "modules": ["Stun.Properties.C04"],
+        "modules": ["Stun.Properties.C04", "Stun.Properties.C09"],
         "theorems": ["Stun.C04.check_spec", "Stun.C04.check_iff", "Stun.C04.check_no_panic", "Stun.C04.check_pure",
                      "Stun.C04.wrong_mac_rejected", "Stun.C04.check_ignores_suffix", "Stun.C04.sign_then_check",
                      "Stun.C04.sizeReduced_false", "Stun.C09.integrity_after_fp_refused"],
@@ -217,7 +217,7 @@ PROPS = {
                         "covered span differs)"],
     },
     "C05": {
-        "modules": ["Stun.Properties.C05"],
+        "modules": ["Stun.Properties.C05", "Stun.Properties.C07"],
         "theorems": ["Stun.C05.fp_addTo_value", "Stun.C05.fp_check_iff", "Stun.C05.fp_add_then_check",
                      "Stun.C07.fingerprintCheck_no_panic"],
         "streams": ["fingerprint"],
